@@ -17,10 +17,14 @@ pub struct NamesTok { pub id: Ghost<int> }
 impl ArrTok {
     #[verifier::external_body]
     pub fn to_owned(&self) -> (r: ArrTok) ensures r.id@ == self.id@ { unimplemented!() }           // ndarray to_owned: same contents
+    #[verifier::external_body]
+    pub fn clone(&self) -> (r: ArrTok) ensures r.id@ == self.id@ { unimplemented!() }
 }
 impl NamesTok {
     #[verifier::external_body]
     pub fn to_vec(&self) -> (r: NamesTok) ensures r.id@ == self.id@ { unimplemented!() }           // slice to_vec: same names
+    #[verifier::external_body]
+    pub fn clone(&self) -> (r: NamesTok) ensures r.id@ == self.id@ { unimplemented!() }
 }
 pub uninterp spec fn scaled(records: int) -> int;                                                    // what the array-level transform returns
 
